@@ -43,9 +43,9 @@ func newConcEnv() *concEnv {
 	m2.Add(&flyio.Organization{ID: 2, Mask: resset.ActionRead})
 	tok2, _ := m2.String()
 	e.hdr = "FlyV1 " + tok + "," + tok2
-	m3, _ := macaroon.New([]byte("kid"), concLoc, e.key)
-	m3.Add(&flyio.Organization{ID: 3, Mask: resset.ActionRead})
-	e.extra, _ = m3.String()
+	// what AddTokens adds: a non-macaroon entry, so that the bundle's permission tokens (and with them the
+	// cost of Verify/Attenuate per call) stay constant while the token list grows
+	e.extra = "fo1_extra"
 	return e
 }
 
@@ -130,7 +130,12 @@ func runPair(e *concEnv, a, w concOp, g, iters int, watchdog time.Duration) stri
 	select {
 	case <-done:
 	case <-time.After(watchdog):
-		return "hang"
+		// slow or stuck? a stuck lock never finishes; give a slow machine a generous second chance
+		select {
+		case <-done:
+		case <-time.After(6 * watchdog):
+			return "hang"
+		}
 	}
 	// atomicity post-condition: every concurrently added token is present
 	if w.name == "Bundle.AddTokens" && a.name != "Bundle.Filter" {
